@@ -229,6 +229,18 @@ theorem c13_idempotent (r : LRate) (m : Int) (r' : LRate) (h : recalculate r m =
 theorem c13_optimize_flatten (r : LRate) :
     optimize r = recalculate r 10000000 ∧ flatten r = recalculate r 0 := ⟨rfl, rfl⟩
 
+/-- **C13 (Flatten).**  A successful `Flatten` always returns a one-element rate: the
+    "Quantity 1 unless Interval equals the minimum" clause with minimum 0, where a valid result
+    cannot have Interval 0. -/
+theorem c13_flatten_one (r r' : LRate) (h : flatten r = .ok r') :
+    r'.quantity = 1 ∧ 0 < r'.interval := by
+  obtain ⟨hv, _, hq⟩ := c13_valid r 0 r' h
+  have hpos := ((isValid_none_iff _).1 hv).1
+  refine ⟨?_, hpos⟩
+  rcases hq with hq | hq
+  · exact hq
+  · omega
+
 /-- Defect D1, kept as a decided fact about the UNREPAIRED function: it returned a rate
     with quantity 0 and no error. -/
 theorem c13_unfixed_counterexample :
